@@ -139,6 +139,9 @@ _SUBPROCESS_PROFILES = ["subprocess:-O:", "subprocess:-OO:", "subprocess:-bb:", 
 _DECIMAL_PROFILES = ["decimal:%s:%d" % (r, p) for r, p in zip(
     ("ROUND_DOWN", "ROUND_UP", "ROUND_FLOOR", "ROUND_HALF_DOWN", "ROUND_05UP", "ROUND_CEILING", "ROUND_HALF_UP", "ROUND_HALF_EVEN"),
     (28, 29, 34, 28, 60, 28, 31, 100))]
+# (traps stay at their defaults: the properties quantify rounding modes and precisions only, and the unchanged CVSS4
+# mixes floats and Decimals, so it cannot be constructed at all under a context that traps FloatOperation -- tried in
+# session 3, seed C03-score-clamp-float-bounds-floatoperation-trap is kept as a record of that boundary)
 
 
 def _set_ambient(profile):
@@ -173,11 +176,16 @@ def _set_ambient(profile):
     if not _SAVED_DECIMAL:
         _SAVED_DECIMAL.append(decimal.getcontext().copy())
     if profile.startswith("decimal:"):
-        _, rounding, prec = profile.split(":")
-        decimal.setcontext(decimal.Context(prec=int(prec), rounding=rounding))
+        parts = profile.split(":")
+        ctx = decimal.Context(prec=int(parts[2]), rounding=parts[1])
+        if len(parts) > 3 and hasattr(decimal, parts[3]):
+            # a strictness switch an application may turn on for its own arithmetic (FloatOperation: mixing floats and
+            # Decimals is an error); the unchanged library works under it
+            ctx.traps[getattr(decimal, parts[3])] = True
+        decimal.setcontext(ctx)
     else:
         cur = decimal.getcontext()
-        if (cur.prec, cur.rounding) != (_SAVED_DECIMAL[0].prec, _SAVED_DECIMAL[0].rounding):
+        if (cur.prec, cur.rounding, cur.traps) != (_SAVED_DECIMAL[0].prec, _SAVED_DECIMAL[0].rounding, _SAVED_DECIMAL[0].traps):
             decimal.setcontext(_SAVED_DECIMAL[0].copy())
     if hasattr(warnings, "_filters_mutated"):
         warnings._filters_mutated()
